@@ -343,17 +343,14 @@ Theorem apply_passes_list : forall ap f v l s, is_fn f = true ->
   prim_apply ap PApply [f; list_val (v :: l)] s = ap f (v :: l) s.
 Proof. exact RefSemProofs.apply_passes_list_ref. Qed.
 
-(* integer division (round 5): decided by C07's model Num.int_do; exact -> integer, inexact -> never an integer *)
-Theorem div_is_int_do : forall ap a b s, (b =? 0) = false ->
+(* integer division (round 5): exact -> integer, inexact -> the float64 quotient fdiv_z (integer arithmetic only) *)
+Theorem div_int_or_float : forall ap a b s, (b =? 0) = false ->
   prim_apply ap PDiv [VInt a; VInt b] s =
-  match int_do OpDiv a b with
-  | Ok (NInt z) => (Done (VInt z), s)
-  | Ok (NFloat f) => match flt_of_f64 f with
-                     | Some me => (Done (VFlt (fst me) (snd me)), s)
-                     | None => (Sig (SErr EUnspec), s)
-                     end
-  | _ => (Sig (SErr EOther), s)
-  end.
+  if Z.rem a b =? 0 then (Done (VInt (wrap64 (Z.quot a b))), s)
+  else match flt_of_f64 (fdiv_z a b) with
+       | Some me => (Done (VFlt (fst me) (snd me)), s)
+       | None => (Sig (SErr EUnspec), s)
+       end.
 Proof. exact RefSemProofs.div_ref. Qed.
 Theorem div_exact : forall ap a b s, (b =? 0) = false -> Z.rem a b = 0 ->
   prim_apply ap PDiv [VInt a; VInt b] s = (Done (VInt (wrap64 (Z.quot a b))), s).
@@ -362,6 +359,25 @@ Theorem div_inexact_not_int : forall ap a b s z, (b =? 0) = false -> Z.rem a b <
   fst (prim_apply ap PDiv [VInt a; VInt b] s) <> Done (VInt z).
 Proof. exact RefSemProofs.div_inexact_not_int_ref. Qed.
 Print Assumptions div_inexact_not_int.
+
+(* fdiv_z against C07's Flocq model Num (float64(a) / float64(b) with IEEE rounding) on operands around the
+   53- and 63-bit boundaries: the only statement of this file that mentions the real-number axioms of Flocq *)
+Definition f64_dyadic (f : Num.f64) : option (Z * Z) :=
+  match f with
+  | Flocq.IEEE754.Binary.B754_zero _ _ false => Some (0, 0)
+  | Flocq.IEEE754.Binary.B754_finite _ _ sg m e _ => Some (norm2 80 (if sg then Z.neg m else Z.pos m) e)
+  | _ => None
+  end.
+Example ex_fdiv_z_is_ieee :
+  forallb (fun ab => match f64_dyadic (Num.fdiv (Num.of_Z (fst ab)) (Num.of_Z (snd ab))) with
+                     | Some (m, e) => (m =? fst (fdiv_z (fst ab) (snd ab))) && (e =? snd (fdiv_z (fst ab) (snd ab)))
+                     | None => false
+                     end)
+    [(9223372036854775807, 2); (9223372036854775807, 3); (9007199254740993, 2); (9007199254740995, 2);
+     (-9223372036854775807, 7); (7, 2); (1, 3); (-1, 3); (10, -4); (4611686018427387905, 3);
+     (9223372036854775806, 9223372036854775807); (3, 9223372036854775807); (1099511627777, 2147483648);
+     (9007199254740991, 4); (18014398509481985, 2); (-9223372036854775808, 3); (5, 9007199254740993)] = true.
+Proof. vm_compute. reflexivity. Qed.
 
 (* characters appended to strings as UTF-8 *)
 Theorem concat_str_chr : forall ap s0 c t s,
